@@ -85,7 +85,15 @@ class Leaf(resource.Resource, resource.PathCapable):
 
 
 ATTRS = [dict(), dict(rt="x"), dict(rt="x y", ct="0 41"), dict(if_="core.s", ct="40"), dict(hidden=True), dict(rt="xy"), dict(rt="unit=C", if_="a=b=c"),
-         dict(bare=True), dict(ct=0, rt="note")]      # 7: no get_link_description; 8: the integer content format 0
+         dict(bare=True), dict(ct=0, rt="note"),      # 7: no get_link_description; 8: the integer content format 0
+         dict(falsy=True)]                            # 9: a resource object that is false in a boolean context (an empty collection)
+
+
+class Falsy(Rec):
+    """A registered resource is routed to whatever its truth value - e.g. a collection resource that is currently empty."""
+
+    def __len__(self):
+        return 0
 
 
 def build_site(cfg, log):
@@ -95,6 +103,8 @@ def build_site(cfg, log):
     for path, ai in resources:
         if ATTRS[ai].get("bare"):
             site.add_resource(list(path), Bare("R" + "/".join(path) + "#%d" % ai, log))
+        elif ATTRS[ai].get("falsy"):
+            site.add_resource(list(path), Falsy("R" + "/".join(path) + "#%d" % ai, log))
         else:
             site.add_resource(list(path), Rec("R" + "/".join(path) + "#%d" % ai, log, **ATTRS[ai]))
     for path, inner in subsites:
@@ -418,7 +428,11 @@ def configs(tier, seed):
     # nested sites: 1 or 2 of them with every inner shape, plus a few plain resources around
     around = [(), ((("a",), 1),), ((("a", "b"), 2), (("",), 4)), (((), 5), (("a", ""), 3)), ((("m=1",), 6), (("b",), 1)),
               # a resource without get_link_description right behind one that hides itself / one that has attributes
-              ((("a", "a"), 4), (("a", "b"), 7), (("b", "b"), 8)), ((("a", "a"), 2), (("a", "b"), 7), (("b", "a"), 7))]
+              ((("a", "a"), 4), (("a", "b"), 7), (("b", "b"), 8)), ((("a", "a"), 2), (("a", "b"), 7), (("b", "a"), 7)),
+              # resource objects that are false in a boolean context, at the top and at a path a nested site is a prefix of
+              ((("a",), 9), (("b", "a"), 9), ((), 9))]
+    for p1, p2 in itertools.combinations([p for p in PATHS3 if len(p) <= 2], 2):
+        out.append((((p1, 9), (p2, 0)), (), ()))
     for sp in SUBPATHS:
         for inner in INNER:
             for ar in around:
